@@ -427,6 +427,33 @@ def splice_after_let(body, fspec, fname):
     return out
 
 
+def splice_after_call(body, fspec, fname):
+    """proof lines after the statement that contains the K-th call `NAME(` (anchor = callee name + ordinal; the call must be
+    a statement of its own or the right-hand side of one: the next `;` at the call's own bracket depth ends it)"""
+    out = list(body)
+    for (name, ordinal), lines in sorted(fspec.after_call.items(), key=lambda kv: -kv[0][1]):
+        hits = [k for k, t in enumerate(out) if is_id(t, name) and nxt_sig(out, k) < len(out) and is_p(out[nxt_sig(out, k)], '(')
+                and not (prv_sig(out, k) >= 0 and is_id(out[prv_sig(out, k)], 'fn'))]
+        if ordinal >= len(hits):
+            raise ExtractError('after_call anchor `%s` #%d not found in %s' % (name, ordinal, fname))
+        q = hits[ordinal]
+        found = None
+        while q < len(out):
+            x = out[q]
+            if x.kind == 'punct' and x.text in OPEN:
+                q = match_close(out, q)
+            elif x.kind == 'punct' and x.text in ')]}':
+                break
+            elif is_p(x, ';'):
+                found = q
+                break
+            q += 1
+        if found is None:
+            raise ExtractError('after_call anchor `%s` #%d in %s is not a statement of its own' % (name, ordinal, fname))
+        out[found + 1:found + 1] = [T('raw', '\n' + '\n'.join(lines) + '\n', out[found].start)]
+    return out
+
+
 def rewrite_for_filter(body, rw):
     """R8c: `for X in EXPR.iter().filter(|X| P) {B}` -> `for X in EXPR.iter() { if P { B } }`
     (only when the closure parameter has the loop variable's name; otherwise left alone)"""
@@ -842,6 +869,8 @@ def emit_fn(em, unit, it, toks, fspec, path, src_text, rw):
     body = rewrite_for_filter(body, rw)
     if fspec and fspec.after_let:
         body = splice_after_let(body, fspec, lname)
+    if fspec and fspec.after_call:
+        body = splice_after_call(body, fspec, lname)
     body = desugar_incl_ranges(body, fspec, rw)
     body = splice_body(em.obls, body, fspec, unit, lname, rw)
     # register loop invariants / closure clauses as obligations (line-approximate: whole function)
